@@ -2,6 +2,23 @@
 """Regenerates MANIFEST.json from the table below (keeps it valid at all times)."""
 import json, sys
 CHECKS = {
+ "C01": dict(level="exploration", design="4/C01",
+   text="Seeded proptest search over constructed GDSII library values (all seven element kinds, every optional-field subset, empty/odd/non-ASCII strings, full-range coordinates, in-range reals, records straddling the 16-bit limit): write, read back, compare field for field; 1 in 16 through save/open on a file; hand-written boundary libraries as regression inputs.",
+   note="Round-trip oracle (inverse); symmetric reader/writer errors are C02/C03's business. Strings without NUL; reals within the format's range.",
+   technique="property-based testing (proptest over choice sequences, shrinking): write/read round-trip oracle"),
+ "C02": dict(level="exploration", design="4/C02",
+   text="Same generated libraries; the written bytes are decoded by an independent strict GDSII decoder written from the specification (record numbering, data types, fixed payload sizes, BNF order, big-endian, normalised exact reals, STRANS bits, NUL padding, ENDLIB last) and the decoded content must equal the generated model.",
+   note="Trusted base: harness/src/refmodel/gdsspec.rs and gdsreal.rs as the reading of the Calma specification.",
+   technique="property-based testing: differential oracle against an independent specification decoder"),
+ "C03": dict(level="exploration", design="4/C03",
+   text="Streams produced by an independent reference encoder from generated models (all element kinds, optional-record subsets in spec order, padded/unpadded strings, arbitrary dates, trailing zero padding or arbitrary bytes after ENDLIB) must be read to exactly the model; streams with one unsupported library-level record must be rejected.",
+   note="Trusted base: the reference encoder in harness/src/refmodel/gdsspec.rs. Conformant = records in BNF order.",
+   technique="property-based testing: differential oracle, reference encoder -> reader under test"),
+ "C10": dict(level="fault_enumeration", design="4/C10",
+   text="Exhaustive fault enumeration over 30 generated and 3 repository streams: every truncation point (must be rejected before ENDLIB), every single-record fault (length/type/datatype rewrites, empty payload, delete/duplicate/swap/splice) at every record, extreme and unnormalised reals, plus proptest-driven byte mutations and noise. Oracle: the call returns (panics caught in-process; aborts and hangs caught by a supervising process with CPU limit), and any returned library re-writes and re-reads to itself; allocation volume at most doubles when the input doubles.",
+   note="Termination = returns before the hang watchdog / 60 s CPU; linear time approximated by allocation volume. Repository files are faulted at every 9th record in the quick tier, every record in thorough.",
+   technique="fault enumeration + property-based byte mutation; crash/hang oracle via supervised child processes; re-write round-trip oracle"),
+
  "C15": dict(level="exploration", design="4/C15",
    text="Exhaustive over every power-of-two neighbourhood (+-16 ulp) in range and every 1-/2-bit mantissa at every exponent, plus seeded random doubles and normalised reals (ties, 54-56 significant bits), all compared bit-for-bit with an exact integer model of the 8-byte real; reals also checked inside written UNITS/MAG/ANGLE records.",
    note="Trusted base: the integer reference model harness/src/refmodel/gdsreal.rs; random part bounded by the case counts in evidence.",
